@@ -6,6 +6,7 @@ import SimuVerif.Model.Geometry
   answer  : ok <nf> <3·nf node ids> <area volume cx cy cz minx miny minz maxx maxy maxz
                                      cxx cxy cxz cyy cyz czz> <nf face areas> <3·nf face normals>
             err integrity | err notmanifold | err undefined
+  request : sel <3 eigenvalues as hex>      answer : ok <index of the column get_cell_longest_axis returns>
 -/
 open Simu Driver Simu.Geo
 
@@ -52,6 +53,11 @@ def step (line : String) : String :=
       | some xs, some ids => if ids.any (· ≥ nn) then "bad-op" else geo nn nf xs ids
       | _, _ => "bad-op"
     | _, _ => "bad-op"
+  | ["sel", a, b, c] =>
+    -- the if-chain at the end of `get_cell_longest_axis` (Gen.Geometry.axisColumn) on the eigenvalues of the REAL solver
+    match parseFs [a, b, c] with
+    | some [e0, e1, e2] => s!"ok {Simu.Gen.Geometry.axisColumn (⟨e0, e1, e2⟩ : V3 Float)}"
+    | _ => "bad-op"
   | _ => "bad-op"
 
 partial def loop (h : IO.FS.Stream) (out : IO.FS.Stream) : IO Unit := do
